@@ -1,21 +1,57 @@
 """C17 — each simulated flight is independent of the builder's history and failures.
 
-R1  acquire/release pairing of the per-flight context on exceptional paths
-    (T-PAIR, must-dataflow on the CFG with `finally` instantiated per
-    continuation): a release (`del self.ctx`) may be reached only where the
-    acquire (`self.ctx = ...`) has definitely been executed, or under the
-    guarded-release idiom (`'ctx' in self.__dict__` / hasattr).  Otherwise the
-    release itself raises and masks the original rejection reason.  Also: no
-    exit of `fly` leaves the context acquired.
+R1  the per-flight context exists wherever it is used (T-PAIR, must-dataflow on
+    the CFG of `fly` with `finally` instantiated per continuation, exceptional
+    edges carrying the state *before* the failing statement): a release
+    (`del self.ctx`) and every read of context-backed state - `self.<attr>` for
+    an attribute the builder does not have itself (no method, class attribute
+    or constructor store of that name), which `__getattr__` forwards to
+    `self.ctx` - may be reached only where the acquire (`self.ctx = ...`) has
+    definitely been executed, or under a guard that establishes the context
+    (`'ctx' in self.__dict__` / `vars(self)`, `hasattr(self, 'ctx' | <context
+    attribute>)`, `getattr(self, 'ctx', None) is not None`, as an `if`, a
+    conditional expression or the left operand of `and`), or where the
+    AttributeError is caught on the spot.  Otherwise the use itself raises
+    AttributeError on the path on which the context constructor rejected the
+    mission, and hides the reason.  Also: no exit of `fly` leaves the context
+    acquired.
 R2  no builder-persistent state is carried between flights (effects):
     attributes stored on the builder while flying that are not redirected to
     the context must not be read while flying, and persistent containers of
     the builder must not be mutated while flying.
-R3  convergence gate: `_iterate_mass` returns only with the converged flag
-    set; the flag is set only under abs(residual) < tolerance; trajectory and
-    residual always come from one and the same iteration.
-R4  rejection reasons propagate: no handler on the flight path swallows or
-    rewraps exceptions (every except clause re-raises).
+R3  convergence gate, decided on the CFG of `_iterate_mass` by must-dataflow:
+    every `return <trajectory>` is reached only with `abs(residual) <
+    tolerance` established for the iteration that produced that trajectory
+    (true branch of the test; `tol > abs(r)`, `-tol < r < tol`, `r < tol and
+    r > -tol`, a hoisted `abs(r)` or tolerance, `k * tolerance` with k <= 1),
+    directly or through boolean flag variables (`flag = True` under the test,
+    `flag = abs(r) < tol`; tracked as flag => gate) - with or without a flag,
+    with early return, break/else or guard clauses alike.  A new
+    `_fly_iteration()` invalidates what was established.  Trajectory and
+    residual are the components of one `_fly_iteration()` result, unpacked
+    together or held in one local and read through the record's fields;
+    rebinding one without the other is a violation.  The signed residual, a
+    tolerance wider than requested, and convergence concluded from the
+    *failure* of a `>=` test (true for NaN) do not establish the gate.  The
+    residual returned by `_fly_iteration` equals (trip fuel − fuel burned) /
+    trip fuel as an exact rational function.
+R4  nothing on the exceptional path replaces the rejection reason: for every
+    exception handler and `finally` block of a builder method, on the CFG:
+    no path through a handler continues normally (swallow; exempt: a clause
+    for look-up errors around a block without calls or raises); every `raise`
+    in a handler is bare or re-raises the bound name (no rewrap, no `from`),
+    and a bare `raise` is not in a handler nested inside another handler
+    (it would re-raise the secondary error); evaluating the handler / finally
+    body cannot itself raise for a decidable reason before the re-raise: it
+    reads no context-backed attribute where the context is not definitely
+    acquired (R1 state) and no local that is not definitely bound on every
+    path into it (must-bound dataflow); a `finally` contains no return / break
+    / continue.  Positive control: an embedded handler that formats
+    `self.mission` and an unbound local before `raise` must be recognised.
+R5  a context constructor reads base-initialised fields only after
+    `super().__init__()`.
+R6  an out-of-envelope state is rejected by the performance model itself (the
+    no-extrapolation rule of C06).
 """
 
 from __future__ import annotations
@@ -562,8 +598,10 @@ class _Gate:
     only residual < tolerance ('upper'), only residual > -tolerance ('lower'), the negation of a >= test, which a
     NaN residual also passes ('gate-nan'), or an unclassified statement about the residual ('other')."""
 
-    def __init__(self, fn, res_names):
-        self.fn, self.res = fn, set(res_names)
+    def __init__(self, fn, is_residual, holders):
+        """is_residual(expr): the expression is the residual of the current iteration; holders: the local names
+        through which it is reached (the residual variable itself, or the variable holding the whole result)"""
+        self.fn, self.is_residual, self.holders = fn, is_residual, set(holders)
         self.loose = []   # tolerance expressions wider than the requested one
 
     def _resolve(self, e, fresh):
@@ -604,8 +642,7 @@ class _Gate:
         return isinstance(e, ast.UnaryOp) and isinstance(e.op, ast.USub) and self._tol(e.operand)
 
     def _is_res(self, e, fresh):
-        e = self._resolve(e, fresh)
-        return isinstance(e, ast.Name) and e.id in self.res
+        return self.is_residual(self._resolve(e, fresh))
 
     def _is_mag(self, e, fresh):
         e = self._resolve(e, fresh)
@@ -613,7 +650,7 @@ class _Gate:
             and self._is_res(e.args[0], fresh)
 
     def mentions(self, e, fresh):
-        return any(isinstance(x, ast.Name) and (x.id in self.res or x.id in fresh) for x in ast.walk(e))
+        return any(isinstance(x, ast.Name) and (x.id in self.holders or x.id in fresh) for x in ast.walk(e))
 
     def atom(self, e, pol, fresh):
         if not self.mentions(e, fresh):
@@ -691,29 +728,65 @@ def rule_convergence(ctx, m):
             return r.name == fi.name
         return isinstance(e.func, ast.Attribute) and e.func.attr == fi.name
 
-    # the (trajectory, residual) pairs
+    # what an iteration returns: which component is the trajectory, which the residual
+    comp = _iteration_components(ctx, prog, fi)
+    ti, ri = comp['traj_index'], comp['res_index']
+
+    # the (trajectory, residual) of the current iteration in _iterate_mass: two unpacked locals, or one local holding
+    # the whole result and read through the component accessors
     calls = [c for c in calls_in(fn) if is_iteration(c)]
     ctx.floor('C17-R3', len(calls), 1, 'calls of _fly_iteration in _iterate_mass')
-    pair_of = {}   # id(stmt) -> (traj name | None, residual name | None)
+    pair_of = {}   # id(stmt) -> (traj name | None, residual name | None)  /  ('whole', name)
     for c in calls:
         st = stmt_of(c)
-        if not (isinstance(st, ast.Assign) and st.value is c and len(st.targets) == 1
-                and isinstance(st.targets[0], (ast.Tuple, ast.List)) and len(st.targets[0].elts) == 2
-                and all(isinstance(e, ast.Name) for e in st.targets[0].elts)):
-            ctx.undecided('C17-R3', it, norm(st)[:70], 'the result of _fly_iteration() is not unpacked into '
-                          '(trajectory, residual) at the call')
-        a, b = (e.id for e in st.targets[0].elts)
-        pair_of[id(st)] = (None if a == '_' else a, None if b == '_' else b)
-    tnames = {a for a, b in pair_of.values() if a}
-    rnames = {b for a, b in pair_of.values() if b}
-    if len(tnames) != 1 or len(rnames) != 1 or tnames & rnames:
-        ctx.undecided('C17-R3', it, f'trajectory {sorted(tnames)} residual {sorted(rnames)}',
-                      'more than one variable holds the trajectory or the residual')
-    tvar, rvar = next(iter(tnames)), next(iter(rnames))
-    # the residual is the second component of what _fly_iteration returns
-    rets_fi = [r for r in walk_no_nested(fi.node) if isinstance(r, ast.Return)]
-    if not rets_fi or not all(isinstance(r.value, ast.Tuple) and len(r.value.elts) == 2 for r in rets_fi):
-        ctx.undecided('C17-R3', fi, 'return', '_fly_iteration does not return a (trajectory, residual) pair')
+        if not (isinstance(st, ast.Assign) and st.value is c and len(st.targets) == 1):
+            ctx.undecided('C17-R3', it, norm(st)[:70], 'the result of _fly_iteration() is not bound at the call')
+        t = st.targets[0]
+        if isinstance(t, ast.Name):
+            pair_of[id(st)] = ('whole', t.id)
+        elif isinstance(t, (ast.Tuple, ast.List)) and len(t.elts) == comp['n'] and all(isinstance(e, ast.Name) for e in t.elts):
+            a, b = t.elts[ti].id, t.elts[ri].id
+            pair_of[id(st)] = (None if a == '_' else a, None if b == '_' else b)
+        else:
+            ctx.undecided('C17-R3', it, norm(st)[:70], 'the result of _fly_iteration() is neither unpacked into its '
+                          'components nor bound to one local')
+    wholes = {v[1] for v in pair_of.values() if v[0] == 'whole'}
+    tnames = {a for a, b in pair_of.values() if a and a != 'whole'}
+    rnames = {b for a, b in pair_of.values() if a != 'whole' and b}
+    if wholes:
+        if len(wholes) != 1 or tnames or rnames:
+            ctx.undecided('C17-R3', it, f'results {sorted(wholes)} trajectory {sorted(tnames)} residual {sorted(rnames)}',
+                          'the iteration result is held in more than one form')
+        whole = next(iter(wholes))
+        tvar = rvar = None
+        holders = {whole}
+        tdesc, rdesc = f'{whole}.<trajectory>', f'{whole}.<residual>'
+    else:
+        if len(tnames) != 1 or len(rnames) != 1 or tnames & rnames:
+            ctx.undecided('C17-R3', it, f'trajectory {sorted(tnames)} residual {sorted(rnames)}',
+                          'more than one variable holds the trajectory or the residual')
+        tvar, rvar = next(iter(tnames)), next(iter(rnames))
+        whole = None
+        holders = {tvar, rvar}
+        tdesc, rdesc = tvar, rvar
+
+    def component(e, names, index, var):
+        if isinstance(e, ast.Name):
+            return var is not None and e.id == var
+        if whole is None:
+            return False
+        if isinstance(e, ast.Attribute) and isinstance(e.value, ast.Name) and e.value.id == whole:
+            return e.attr in names
+        if isinstance(e, ast.Subscript) and isinstance(e.value, ast.Name) and e.value.id == whole:
+            k = e.slice.value if isinstance(e.slice, ast.Constant) else None
+            return isinstance(k, int) and comp['tuple_like'] and k in (index, index - comp['n'])
+        return False
+
+    def is_res(e):
+        return component(e, comp['res_names'], ri, rvar)
+
+    def is_traj(e):
+        return component(e, comp['traj_names'], ti, tvar)
 
     # flag variables: locals only ever bound to booleans
     def boolish(v):
@@ -722,12 +795,12 @@ def rule_convergence(ctx, m):
 
     flags = set()
     for x in walk_no_nested(fn):
-        if isinstance(x, ast.Name) and isinstance(x.ctx, ast.Store) and x.id not in (tvar, rvar):
+        if isinstance(x, ast.Name) and isinstance(x.ctx, ast.Store) and x.id not in holders:
             ds = local_defs(fn, x.id)
             if ds and all(isinstance(d, ast.Assign) and len(d.targets) == 1 and isinstance(d.targets[0], ast.Name)
                           and boolish(d.value) for d in ds):
                 flags.add(x.id)
-    gate = _Gate(fn, {rvar})
+    gate = _Gate(fn, is_res, holders - ({tvar} if tvar else set()))
     seen_kinds = {}   # kind -> [line]
     foreign = []      # stores to the pair that are not a joint assignment from one iteration
 
@@ -748,7 +821,7 @@ def rule_convergence(ctx, m):
         ok, same, fl, fresh = st
         s = node.stmt
         if node.kind == 'iter':
-            if set(assigned_names(s.target)) & {tvar, rvar}:
+            if set(assigned_names(s.target)) & holders:
                 foreign.append(s)
                 return (False, False, with_flags(st, False, keep_impl=False), frozenset())
             return st
@@ -756,7 +829,7 @@ def rule_convergence(ctx, m):
             return st
         if id(s) in pair_of:
             a, b = pair_of[id(s)]
-            joint = a is not None and b is not None
+            joint = a == 'whole' or (a is not None and b is not None)
             if not joint:
                 foreign.append(s)
             return (False, joint, with_flags(st, False, keep_impl=False), frozenset())
@@ -771,7 +844,7 @@ def rule_convergence(ctx, m):
         for x in walk_no_nested(s):
             if isinstance(x, ast.NamedExpr):
                 bound.add(x.target.id)
-        if bound & {tvar, rvar}:
+        if bound & holders:
             foreign.append(s)
             return (False, False, with_flags(st, False, keep_impl=False), frozenset())
         if isinstance(s, ast.Assign) and len(s.targets) == 1 and isinstance(s.targets[0], ast.Name):
@@ -836,14 +909,14 @@ def rule_convergence(ctx, m):
             ctx.ob('C17-R3', it, f'`{norm(r.stmt)}` returns the trajectory', False,
                    'the mass iteration ends without a trajectory and without reporting non-convergence', line=r.line)
             continue
-        if not (isinstance(v, ast.Name) and v.id == tvar):
-            ctx.undecided('C17-R3', it, norm(r.stmt), f'the returned value is not the trajectory variable `{tvar}`')
+        if not is_traj(v):
+            ctx.undecided('C17-R3', it, norm(r.stmt), f'the returned value is not the trajectory `{tdesc}`')
         good = ok and same
         if good:
-            why = f'abs({rvar}) < options.{TOL_OPTION} is established for the iteration that produced `{tvar}` ' \
+            why = f'abs({rdesc}) < options.{TOL_OPTION} is established for the iteration that produced `{tdesc}` ' \
                   'on every path to this return'
         elif not same:
-            why = (f'`{tvar}` and `{rvar}` can come from different iterations here: the residual that was tested is '
+            why = (f'`{tdesc}` and `{rdesc}` can come from different iterations here: the residual that was tested is '
                    'not the residual of the trajectory that is returned')
         elif 'upper' in seen_kinds and 'lower' not in seen_kinds:
             why = (f'the test at line {seen_kinds["upper"][0]} compares the signed residual: any negative residual '
@@ -864,21 +937,75 @@ def rule_convergence(ctx, m):
     okp = not foreign
     ctx.ob('C17-R3', it, 'trajectory and residual always come from the same iteration', okp,
            f'{len(pair_of)} joint assignments from _fly_iteration()' if okp else
-           f'`{norm(foreign[0])[:60]}` rebinds one of ({tvar}, {rvar}) without the other: they can come from '
+           f'`{norm(foreign[0])[:60]}` rebinds one of ({tdesc}, {rdesc}) without the other: they can come from '
            'different iterations', line=(foreign[0].lineno if foreign else fn.lineno))
     # non-convergence is reported: the function has a way out that is not a return
     raises = [n for n in g.nodes if n.kind == 'stmt' and isinstance(n.stmt, ast.Raise) and n.id in ins]
     ctx.ob('C17-R3', it, 'non-convergence is reported by an exception', bool(raises),
            f'{len(raises)} raise statement(s) on the paths on which no residual passed the test' if raises else
            'no raise is reachable: the iteration budget can run out silently', nontrivial=False)
-    # residual definition in _fly_iteration
-    mr = [st for t, st, how in stores_to(fi.node) if isinstance(t, ast.Name) and t.id == 'mass_residual']
-    ok = len(mr) == 1 and norm(mr[0].value) == '(self.total_fuel_mass - fuelBurned) / self.total_fuel_mass'
-    fb = [st for t, st, how in stores_to(fi.node) if isinstance(t, ast.Name) and t.id == 'fuelBurned']
-    ok = ok and len(fb) == 1 and norm(fb[0].value) == 'self.starting_mass - traj.aircraft_mass[-1]'
-    ok = ok and all(norm(r.value.elts[1]) == 'mass_residual' for r in rets_fi)
+    # residual definition in _fly_iteration, as an exact rational function of the trajectory's last mass
+    from ..algebra import AlgebraError, normal_form
+    from ..conform import code_normal_form, compare
+    want = ast.parse('(self.total_fuel_mass - (self.starting_mass - TRAJ.aircraft_mass[-1])) / self.total_fuel_mass',
+                     mode='eval').body
+    try:
+        got = code_normal_form(fi.node, comp['res_value'], {}, extra_env={comp['traj_local']: ast.Name('TRAJ', ast.Load())})
+        verdict, why = compare(got, normal_form(want, {}, {}))
+    except AlgebraError as e:
+        verdict, why = 'undecided', str(e)
+    if verdict == 'undecided':
+        ctx.undecided('C17-R3', fi, norm(comp['res_value'])[:60], f'residual definition: {why}')
+    ok = verdict == 'equal'
     ctx.ob('C17-R3', fi, 'residual = (trip fuel − fuel burned) / trip fuel', ok,
-           'leftover trip fuel relative to trip fuel' if ok else 'residual definition changed', nontrivial=False)
+           'leftover trip fuel relative to trip fuel' if ok else f'residual definition changed: {why}', nontrivial=False)
+
+
+def _iteration_components(ctx, prog, fi):
+    """What `_fly_iteration` returns: a 2-tuple or a record built from (trajectory, residual).  Returns the positions
+    and field names of the two components, the local holding the trajectory and the residual expression."""
+    rets = [r for r in walk_no_nested(fi.node) if isinstance(r, ast.Return) and r.value is not None]
+    if len(rets) != 1:
+        ctx.undecided('C17-R3', fi, 'return', f'{len(rets)} return statements in _fly_iteration')
+    v = rets[0].value
+    fields, tuple_like = None, True
+    if isinstance(v, ast.Tuple):
+        vals = list(v.elts)
+    elif isinstance(v, ast.Call) and not any(isinstance(a, ast.Starred) for a in v.args) \
+            and all(k.arg for k in v.keywords):
+        cls = prog.resolve_class_expr(fi.module, v.func)
+        if cls is None:
+            ctx.undecided('C17-R3', fi, norm(v)[:60], 'the returned record class cannot be resolved')
+        fields = [f for c in reversed(cls.mro()) for f in c.annotated_fields()]
+        tuple_like = any('NamedTuple' in b or 'tuple' in b for c in cls.mro() for b in c.base_exprs)
+        byname = {k.arg: k.value for k in v.keywords}
+        vals = list(v.args) + [byname.get(f) for f in fields[len(v.args):]]
+        if len(vals) != len(fields) or any(x is None for x in vals):
+            ctx.undecided('C17-R3', fi, norm(v)[:60], 'the returned record is not built from all of its fields')
+    else:
+        ctx.undecided('C17-R3', fi, norm(v)[:60], '_fly_iteration does not return a (trajectory, residual) pair')
+    if len(vals) != 2:
+        ctx.undecided('C17-R3', fi, norm(v)[:60], f'_fly_iteration returns {len(vals)} components')
+
+    def is_trajectory(e):
+        if not isinstance(e, ast.Name):
+            return False
+        for d in local_defs(fi.node, e.id):
+            val = getattr(d, 'value', None)
+            if isinstance(val, ast.Call):
+                c = prog.resolve_class_expr(fi.module, val.func)
+                if (c is not None and c.name == 'Trajectory') or call_name(val).split('.')[-1] == 'Trajectory':
+                    return True
+        return False
+
+    tis = [i for i, e in enumerate(vals) if is_trajectory(e)]
+    if len(tis) != 1:
+        ctx.undecided('C17-R3', fi, norm(v)[:60], 'cannot tell which returned component is the trajectory')
+    ti = tis[0]
+    ri = 1 - ti
+    return {'n': 2, 'traj_index': ti, 'res_index': ri, 'tuple_like': tuple_like,
+            'traj_names': {fields[ti]} if fields else set(), 'res_names': {fields[ri]} if fields else set(),
+            'traj_local': vals[ti].id, 'res_value': vals[ri]}
 
 
 def _type_names(h):
